@@ -287,6 +287,51 @@ class Interp:
     def e_JoinedStr(self, n, env): return "<fstring>"
     def e_FormattedValue(self, n, env): return "<fmt>"
 
+    # ------------------------------------------------------------------ function bodies with early returns
+    @staticmethod
+    def _has_return(node):
+        return any(isinstance(n, ast.Return) for n in ast.walk(node))
+
+    def run_body(self, stmts, env, depth=0):
+        """execute a function body; `if c: return a` under a symbolic c becomes ite(c, a, <value of the rest>)
+        (the continuation is executed once per branch); returns ("ret", value) or ("env", env)"""
+        if depth > 12:
+            raise Unsupported("too many nested conditional returns")
+        for i, st in enumerate(stmts):
+            if isinstance(st, ast.Return):
+                return "ret", (self.ev(st.value, env) if st.value is not None else None)
+            if isinstance(st, ast.If) and self._has_return(st):
+                c = self._truth(self.ev(st.test, env))
+                rest = stmts[i + 1:]
+                if isinstance(c, SB):
+                    sc = z3.simplify(c.t)
+                    if z3.is_true(sc):
+                        c = True
+                    elif z3.is_false(sc):
+                        c = False
+                if not isinstance(c, SB):
+                    return self.run_body(list(st.body if c else st.orelse) + list(rest), env, depth)
+                if self.fork_ifs and self.merge_depth == 0:
+                    return self.run_body(list(st.body if bool(c) else st.orelse) + list(rest), env, depth)
+                self.merge_depth += 1
+                try:
+                    with ctx.guarded(c.t):
+                        k1, v1 = self.run_body(list(st.body) + list(rest), dict(env), depth + 1)
+                    with ctx.guarded(z3.Not(c.t)):
+                        k2, v2 = self.run_body(list(st.orelse) + list(rest), dict(env), depth + 1)
+                finally:
+                    self.merge_depth -= 1
+                if k1 == "ret" and k2 == "ret":
+                    return "ret", self._merge_val(c.t, v1, v2, "<return value>")
+                if k1 == "env" and k2 == "env":
+                    return "ret", None
+                raise Unsupported("a function that returns a value on one symbolic branch and falls off its end on the other")
+            try:
+                env = self.st(st, env)
+            except _Return as r:
+                return "ret", r.v
+        return "env", env
+
     # ------------------------------------------------------------------ statements
     def block(self, stmts, env):
         for st in stmts:
@@ -542,11 +587,8 @@ class _Closure:
             env[a.vararg.arg] = tuple(args[len(names):])
         if a.kwarg is not None:
             env[a.kwarg.arg] = kw
-        try:
-            self.interp.block(self.fd.body, env)
-        except _Return as r:
-            return r.v
-        return None
+        kind, val = self.interp.run_body(self.fd.body, env)
+        return val if kind == "ret" else None
 
 
 def find_nodes(tree, typ, pred=None):
